@@ -4,8 +4,8 @@ from props import tokcommon as tc
 PROP = "C04"
 ENGINE = "tok+xmltok+total"
 USES_TRANSLATOR = True
-LEAN_TARGETS = ["H5V.Props.C04", "H5V.Props.C04Term", "H5V.Props.C04Xml", "H5V.Props.C04XmlTerm"]
-AUDIT_IMPORTS = ["H5V.Props.C04", "H5V.Props.C04Term", "H5V.Props.C04Xml", "H5V.Props.C04XmlTerm"]
+LEAN_TARGETS = ["H5V.Props.C04", "H5V.Props.C04Term", "H5V.Props.C04Xml", "H5V.Props.C04XmlTerm", "H5V.Props.C16"]
+AUDIT_IMPORTS = ["H5V.Props.C04", "H5V.Props.C04Term", "H5V.Props.C04Xml", "H5V.Props.C04XmlTerm", "H5V.Props.C16"]
 THEOREMS = ["H5V.Props.C04." + t for t in [
     "C04_tok_initial_safe", "C04_tok_no_panic", "C04_tok_run_no_panic", "C04_tok_feed_drains", "C04_tok_eof_is_last",
     # termination (Props/C04Term.lean)
@@ -28,7 +28,9 @@ THEOREMS = ["H5V.Props.C04." + t for t in [
     "C04_xml_run_terminates_fuelFor", "C04_xml_fuel_irrelevant", "C04_xml_fuelFor_is_enough", "C04_xml_initial_inv",
     "C04_xml_inv_safe", "C04_xml_feed_terminates", "C04_xml_feed_keeps_invariant", "C04_xml_feed_total",
     "C04_xml_session_terminates", "C04_xml_fresh_session_terminates", "C04_xml_suspend_drains", "C04_xml_finish_total",
-    "C04_xml_parse_total"]] + ["H5V.Model.XmlTok." + t for t in ["step_safe", "crStep_safe", "step_dec", "step_tinv"]]
+    "C04_xml_parse_total"]] + ["H5V.Model.XmlTok." + t for t in ["step_safe", "crStep_safe", "step_dec", "step_tinv"]] + [
+    # the XML tree builder model completes on every token list (no `expect` site reachable), Props/C16.lean
+    "H5V.Props.C16.C16_no_panic", "H5V.Props.C16.C16_balance"]
 TRUSTED = [
     "Lean 4 kernel; axioms ⊆ {propext, Classical.choice, Quot.sound} (audited per run)",
     "tokenizer model lean/H5V/Model/HtmlTok.lean: every assert!/unwrap/expect/panic!/index/from_u32 of tokenizer/mod.rs and "
@@ -41,7 +43,7 @@ TRUSTED = [
     "bisected to the single case by tools/vlib.py (ABORT/timeout); 10^5-deep nesting and 10^5..10^6-character inputs",
 ]
 ASSUMPTIONS = [
-    "C04_partial: totality of the HTML/XML tree builders is not proved; "
+    "C04_partial: totality of the HTML tree builder is not proved (the XML tree builder model is: C16_no_panic); "
     "they are exercised: no PANIC/ABORT/HANG on any case of any engine in this run, queue drained after every feed, "
     "exactly one EOF delivered last",
     "the sink is contract-abiding (RcDom / the recording sink of the harness)",
